@@ -196,7 +196,9 @@ let handle line =
      | None -> ok := false);
     let (txt, s2, present, kdiff) = dump s1 callD callN in
     st := s2;
-    let verdict = if !ok then spec_verdict s1 !spec present kdiff else "na" in
+    let verdict = if !ok then spec_verdict s1 !spec present kdiff
+      else if kdiff then "DIFF:linked-vs-unlinked-cofaces" (* outside the preconditions the two searches must still agree *)
+      else "na" in
     emit ("r=" ^ ret ^ "|" ^ txt ^ "|spec=" ^ verdict)
   | [] -> emit "EMPTY"
 
